@@ -468,7 +468,40 @@ def observe_run(C, reads1, reads2, workdir):
                   rc=nn(rc["reverse_complemented"]),
                   text_ok=text_report_ok(res.report, j), minimal_ok=True)
     ev.update(cfg=cfg, reads=reads, report=report)
+    ev["stats1"] = adapter_stats(j.get("adapters_read1") or [], sampler.desc1, sampler)
+    ev["stats2"] = adapter_stats(j.get("adapters_read2") or [], sampler.desc2, sampler) if paired else []
     return ev, sampler, res
+
+
+def adapter_stats(jlist, descs, sampler):
+    """JSON adapters_read1/2 -> observation records for the C20 clauses."""
+    out = []
+    for d, a in zip(descs, jlist):
+        def end(x, single):
+            if x is None:
+                return False, 0, [], [0, 0, 0, 0, 0], [], 0, 1, 0
+            hist = []
+            for row in x["trimmed_lengths"]:
+                for errs, cnt in enumerate(row["counts"]):
+                    if cnt:
+                        hist.append([row["len"], errs, cnt])
+            adj = x.get("adjacent_bases")
+            adjl = [adj.get(b, 0) for b in ("A", "C", "G", "T", "")] if adj else [0, 0, 0, 0, 0]
+            rate = Fraction(repr(x["error_rate"])).limit_denominator(1000)
+            seq = x["sequence"]
+            eff = len(seq) - seq.count("N") if any(c not in "ACGT" for c in seq) else len(seq)
+            ranges = list(x["error_lengths"] or [])
+            # R3: keep the ranges clause only where double and exact arithmetic agree for every length
+            f = x["error_rate"]
+            if any(int(f * L) != (rate.numerator * L) // rate.denominator for L in range(eff + 1)):
+                ranges = []
+            return True, x["matches"], hist, adjl, ranges, rate.numerator, rate.denominator, eff
+        fp, fm, fh, _fa, fr, fnum, fden, feff = end(a["five_prime_end"], None)
+        bp_, bm, bh, ba, br, bnum, bden, beff = end(a["three_prime_end"], None)
+        out.append(dict(id=d["id"], name=codes(a["name"]), fpresent=fp, fmatches=fm, fhist=fh, bpresent=bp_, bmatches=bm, bhist=bh,
+                        badj=ba, total=a["total_matches"], onrc=-1 if a["on_reverse_complement"] is None else a["on_reverse_complement"],
+                        franges=fr, fnum=fnum, fden=fden, feff=feff, branges=br, bnum=bnum, bden=bden, beff=beff))
+    return out
 
 
 def text_report_ok(text, j):
@@ -523,7 +556,7 @@ def validate_runs(ctx, events, samplers, shards=8, max_rounds=4):
             path = os.path.join(ctx.scratch, f"runs-{rnd}-{i}.ndjson")
             with open(path, "w") as f:
                 for e in part:
-                    f.write(json.dumps({k: e[k] for k in ("id", "want", "cfg", "reads", "report")},
+                    f.write(json.dumps({k: e[k] for k in ("id", "want", "cfg", "reads", "report", "stats1", "stats2")},
                                        separators=(",", ":")) + "\n")
             r = tlc.model_check("Trace_Run", "Trace_Run.cfg", ctx.scratch, workers=1, env={"TRACE_FILE": path},
                                 timeout=2400, xmx="3g")
